@@ -22,17 +22,20 @@ def compare(chk, case, par, got, mode, collect=None):
     o, f = got
     do = float(np.abs(np.asarray(o) - exp_o).max())
     df = float(np.abs(np.asarray(f) - exp_f).max())
-    chk.maximum(f"orientation_rate_dev_{mode}", do / max(1.0, np.abs(exp_o).max()) / kappa)
-    chk.maximum(f"volume_rate_dev_{mode}", df / max(1.0, np.abs(exp_f).max()) / kappa)
+    tag = "_limit_over_delta" if case.get("limit") else ""
+    sc = par.get("delta", 1.0) if case.get("limit") else 1.0
+    chk.maximum(f"orientation_rate_dev_{mode}{tag}", do / max(1.0, np.abs(exp_o).max()) / kappa / sc)
+    chk.maximum(f"volume_rate_dev_{mode}{tag}", df / max(1.0, np.abs(exp_f).max()) / kappa / sc)
     ok = True
-    if not (do <= kernel.tol(exp_o, kappa)):
+    delta = par.get("delta") if case.get("limit") else None
+    if not (do <= kernel.tol(exp_o, kappa, delta)):
         ok = False
-        chk.violation(dict(clause="orientation-rate", fabric=case["fab"], regime=case["regime"], mode=mode, grains=min(len(case["f"]), 2)),
+        chk.violation(dict(clause="orientation-rate", fabric=case["fab"], regime=case["regime"], mode=mode, grains=min(len(case["f"]), 2), near_degenerate=bool(case.get("limit"))),
                       f"orientation rates differ from the published kernel by {do:.3g} (fabric {case['fab']}, regime {case['regime']}, {mode}, params {par})",
                       dict(case=case, par=par, mode=mode))
-    if not (df <= kernel.tol(exp_f, kappa)):
+    if not (df <= kernel.tol(exp_f, kappa, delta)):
         ok = False
-        chk.violation(dict(clause="volume-rate", fabric=case["fab"], regime=case["regime"], mode=mode, grains=min(len(case["f"]), 2)),
+        chk.violation(dict(clause="volume-rate", fabric=case["fab"], regime=case["regime"], mode=mode, grains=min(len(case["f"]), 2), near_degenerate=bool(case.get("limit"))),
                       f"volume-fraction rates differ from the published law by {df:.3g} (fabric {case['fab']}, regime {case['regime']}, {mode}, params {par})",
                       dict(case=case, par=par, mode=mode))
     return ok
@@ -62,6 +65,9 @@ def main(tier):
     jit_results = {}
     for ci, c in enumerate(usable):
         pars = grid if not quick else [grid[0], grid[1 + (ci % (len(grid) - 1))]]
+        if c.get("limit"):
+            # nearly degenerate grain: two perturbation sizes, the smaller one puts the slip activity at ~1e-7
+            pars = [dict(p, delta=d) for p in pars[:2] for d in kernel.DELTAS]
         for pi, par in enumerate(pars):
             try:
                 got = kernel.call_impl(core, c, par)
